@@ -73,8 +73,9 @@ HOP = OBJ("ipv8/messaging/anonymization/tunnel.py::Hop", peer=OBJ("ipv8/peer.py:
 
 
 def sock(**extra):
-    return OBJ(f"{ES}::TunnelExitSocket", overlay=OVERLAY, logger=LOGGER(), circuit_id=INT, bytes_up=INT, bytes_down=INT,
-               last_activity=REAL, **extra)
+    f = dict(overlay=OVERLAY, logger=LOGGER(), circuit_id=INT, bytes_up=INT, bytes_down=INT, last_activity=REAL)
+    f.update(extra)
+    return OBJ(f"{ES}::TunnelExitSocket", **f)
 
 
 contract(f"{ES}::TunnelExitSocket.is_allowed", "is_allowed==allowed_spec",
@@ -84,3 +85,71 @@ contract(f"{ES}::TunnelExitSocket.is_allowed", "is_allowed==allowed_spec",
                   "EXIT_IPV8 in self.overlay.settings.peer_flags, self.overlay._prefix, data)"],
          raises=[],
          covers=["result == True", "result == False"])
+
+# ---------------------------------------------------------------------------------------------------------------------
+# emission path: both directions pass the policy gate
+
+from contracts.common import TASK_STUBS, PEER_OBJ, clean_dict  # noqa: E402,F401
+
+try:
+    from collections import deque  # noqa: F401
+    from ipv8.messaging.interfaces.udp.endpoint import DomainAddress, UDPv4Address, UDPv6Address  # noqa: F401
+except ImportError:
+    pass
+
+UDP = "ipv8/messaging/interfaces/udp/endpoint.py"
+TRANSPORT = EFFECT("transport", sendto={})
+HOPX = OBJ("ipv8/messaging/anonymization/tunnel.py::Hop", peer=PEER_OBJ())
+DEST = ONEOF(NTUPLE(f"{UDP}::UDPv4Address", STR, INT), NTUPLE(f"{UDP}::UDPv6Address", STR, INT), NTUPLE(f"{UDP}::DomainAddress", STR, INT))
+
+
+GATE = {f"{ES}::TunnelExitSocket.is_allowed": {"returns": "flags_allow(self, data)",
+                                               "note": "modular use of the proved contract 'is_allowed==allowed_spec'"}}
+
+
+def flags_allow(self, d):
+    return allowed_spec(EXIT_BT in self.overlay.settings.peer_flags, EXIT_IPV8 in self.overlay.settings.peer_flags,
+                        self.overlay._prefix, d)
+
+
+contract(f"{ES}::TunnelExitSocket.sendto", "sendto.policy-gate",
+         vars={"self": sock(transport_ipv4=OPT(TRANSPORT), transport_ipv6=OPT(TRANSPORT), queue=EXPR("deque(maxlen=10)"), hop=HOPX),
+               "data": BYTES, "destination": DEST},
+         call="self.sendto(data, destination)", raises=[], stubs={**TASK_STUBS, **GATE},
+         on_effect={"transport.sendto": ["flags_allow(self, data)", "args == (data, destination)",
+                                         "not isinstance(destination, DomainAddress)"],
+                    "ensure_future": ["flags_allow(self, data)", "isinstance(destination, DomainAddress)"]},
+         ensures=["implies(not flags_allow(self, data), len(trace()) == 0 and len(self.queue) == 0)",
+                  "len(self.queue) != 1 or (flags_allow(self, data) and self.queue[0] == (data, destination))",
+                  "len(calls('transport.sendto')) <= 1"],
+         covers=["len(calls('transport.sendto')) == 1", "len(self.queue) == 1", "len(calls('ensure_future')) == 1"],
+         note="nothing reaches the outside socket (or the waiting queue, or DNS) unless the exit flags allow that kind of traffic")
+
+contract(f"{ES}::TunnelExitSocket.sendto", "sendto.resolved-domain-goes-through-the-gate-again",
+         vars={"self": sock(transport_ipv4=OPT(TRANSPORT), transport_ipv6=OPT(TRANSPORT), queue=EXPR("deque(maxlen=10)"), hop=HOPX),
+               "data": BYTES, "destination": NTUPLE(f"{UDP}::DomainAddress", STR, INT),
+               "resolved": EFFECT("resolved", result={"returns": NTUPLE(f"{UDP}::UDPv4Address", STR, INT)})},
+         call="(self.sendto(data, destination), [e.args[0](resolved) for e in calls('add_done_callback')])", raises=[],
+         stubs=TASK_STUBS,
+         on_effect={"transport.sendto": ["flags_allow(self, data)", "args[0] == data", "isinstance(args[1], UDPv4Address)"]},
+         ensures=["implies(flags_allow(self, data), len(calls('add_done_callback')) == 1)"],
+         note="a resolved domain destination is re-submitted through sendto and therefore re-checked")
+
+contract(f"{ES}::TunnelExitSocket.datagram_received", "datagram_received.inbound-policy-gate",
+         vars={"OVL": OBJ(f"{TC}::TunnelCommunity", settings=SETTINGS, _prefix=BYTES_N(22),
+                          send_data=CALLABLE("send_data", raises=("Exception",))),
+               "self": sock(hop=HOPX, overlay=EXPR("OVL")), "data": BYTES, "source": ADDRESS},
+         call="self.datagram_received(data, source)", raises=[], stubs=GATE,
+         on_effect={"send_data": ["flags_allow(self, data)",
+                                  "args == (self.hop.peer._address, self.circuit_id, ('0.0.0.0', 0), source, data)"]},
+         ensures=["implies(not flags_allow(self, data), len(calls('send_data')) == 0)",
+                  "implies(flags_allow(self, data), len(calls('send_data')) == 1)",
+                  "self.bytes_down == old(self.bytes_down) + len(data)"],
+         note="what comes back from outside enters the tunnel only if the same policy allows it")
+
+contract(f"{ES}::TunnelExitSocket.datagram_received_ipv6", "datagram_received_ipv6.mapped-ipv4-dropped",
+         vars={"self": sock(hop=HOPX, datagram_received=CALLABLE("datagram_received", raises=())), "data": BYTES, "host": STR, "port": INT},
+         call="self.datagram_received_ipv6(data, (host, port, 0, 0))", raises=[],
+         on_effect={"datagram_received": ["host[:7] != '::ffff:'", "args[0] == data", "args[1] == (host, port)",
+                                          "isinstance(args[1], UDPv6Address)"]},
+         ensures=["len(calls('datagram_received')) <= 1"])
